@@ -59,11 +59,11 @@ def boundary_configs(strength):
     return cfgs
 
 
-def wavenumbers(op):
+def wavenumbers(op, strength="thorough"):
     if op in ("efield", "mfield"):
-        return [1.25, 0.75 + 0.5j]
-    if op == "hyp":
-        return [None, 1.25, 1.0 + 0.5j, ("mod", 0.75)]
+        return [1.25, 0.75 + 0.5j] if strength == "thorough" else [0.75 + 0.5j]
+    if strength != "thorough":
+        return [None, 1.0 + 0.5j, ("mod", 0.75)] if op in ("sl", "hyp") else [None, 1.0 + 0.5j]
     if op == "adl":
         return [None, 1.0 + 0.5j, ("mod", 0.75)]
     return [None, 1.25, 1.0 + 0.5j, ("mod", 0.75)]
@@ -133,7 +133,7 @@ def run_boundary(api, rng, strength, results, fails, tag):
             continue
         prefix = is_prefix(dom) and is_prefix(dual)
         for op in ops:
-            for k in wavenumbers(op):
+            for k in wavenumbers(op, strength):
                 nd = dom.global_dof_count
                 x = rng.integers(-4, 5, size=nd) / 4.0
                 cplx_vec = bool(rng.integers(0, 2))
